@@ -3087,6 +3087,7 @@ template <typename T>
           saturated_list.push_back(this);
         }
       }
+      send_ok_report<specialized>(name);
       for (auto& a : actions) a.action(params);
     }
 
@@ -3384,9 +3385,6 @@ template <typename T>
                       e.saturated,
                       func_name + std::string(" with signature ") + sig_name,
                       param_value);
-    }
-    else{
-        report_match(e.active);
     }
     trace_agent ta{i->loc, i->name, tracer_obj()};
     try
